@@ -20,6 +20,7 @@ type Mutex struct {
 func (m *Mutex) o() *vs.Obj {
 	if m.obj == nil {
 		m.obj = vs.NewObj("mutex")
+		m.obj.State = m.State
 	}
 	return m.obj
 }
@@ -81,6 +82,13 @@ type RWMutex struct {
 func (m *RWMutex) o() *vs.Obj {
 	if m.obj == nil {
 		m.obj = vs.NewObj("rwmutex")
+		m.obj.State = func() uint64 {
+			s := uint64(m.readers)<<8 | uint64(m.pendW)<<1
+			if m.writer {
+				s |= 1
+			}
+			return s
+		}
 	}
 	return m.obj
 }
@@ -153,6 +161,7 @@ func NewCond(l Locker) *Cond { return &Cond{L: l} }
 func (c *Cond) o() *vs.Obj {
 	if c.obj == nil {
 		c.obj = vs.NewObj("cond")
+		c.obj.State = func() uint64 { return uint64(len(c.waiters)) }
 	}
 	return c.obj
 }
@@ -215,6 +224,15 @@ type Once struct {
 func (o *Once) Do(f func()) {
 	if o.obj == nil {
 		o.obj = vs.NewObj("once")
+		o.obj.State = func() uint64 {
+			if o.done {
+				return 2
+			}
+			if o.running {
+				return 1
+			}
+			return 0
+		}
 	}
 	vs.Point(vs.KOnce, o.obj, func() bool { return !o.running })
 	if vs.Aborting() {
@@ -242,6 +260,7 @@ type WaitGroup struct {
 func (wg *WaitGroup) o() *vs.Obj {
 	if wg.obj == nil {
 		wg.obj = vs.NewObj("waitgroup")
+		wg.obj.State = func() uint64 { return uint64(wg.n) }
 	}
 	return wg.obj
 }
